@@ -24,6 +24,9 @@ class SimStall(BaseException):
 class Peer:
     lenient = False          # True: the transport does not validate TLS files
 
+    on_request = None        # callback(request) before the peer answers
+    default = None           # behaviour for URLs without a script entry
+
     def __init__(self):
         self.script = {}     # normalised url -> behaviour dict
         self.requests = []
@@ -56,7 +59,10 @@ def _fake_send(self, request, stream=False, timeout=None, verify=True,
         'method': request.method, 'url': request.url,
         'headers': dict(request.headers), 'body': request.body,
         'timeout': timeout, 'verify': verify, 'cert': cert})
-    beh = peer.script.get(request.url)
+    if peer.on_request is not None:
+        # the reply is an event: the simulator may run other actors first
+        peer.on_request(request)
+    beh = peer.script.get(request.url, peer.default)
     if beh is None:
         peer.fired('unknown_url')
         raise rex.ConnectionError('SimNet: no such host for %s'
